@@ -338,6 +338,7 @@ class Ctx:
         self.corr_disagreements = 0
         self.t0 = time.time()
         self.build: Optional[Build] = None
+        self.escalate: List[str] = []      # anchored source files that differ from the fingerprinted revision
 
     def count(self, table: str, key: str, n: int = 1):
         d = self.hist.setdefault(table, {})
@@ -353,7 +354,11 @@ class Ctx:
             self.failures.append(f)
 
     def budget(self, quick: int, thorough: int) -> int:
-        return thorough if self.tier == "thorough" else quick
+        if self.tier == "thorough":
+            return thorough
+        if self.escalate:      # the source changed since it was last validated: look harder (never an alarm by itself)
+            return max(quick, min(thorough, 3 * quick))
+        return quick
 
 
 def write_replay(prop: str, f: Failure, seed: int) -> str:
